@@ -84,7 +84,7 @@ class Origin:
         return "Origin(%s, %r, %s)" % (self.kind, self.node, ".".join(self.field_path()))
 
 
-def origins(body, defs, operand_or_place, transparent=TRANSPARENT_CALLS, max_depth=40):
+def origins(body, defs, operand_or_place, transparent=TRANSPARENT_CALLS, max_depth=40, through_ops=False):
     """Trace a value backwards to its origins. Follows copies/moves, borrows, derefs, casts and the
     value-preserving calls in `transparent` (through argument 0)."""
     from facts import Operand, Place
@@ -120,6 +120,9 @@ def origins(body, defs, operand_or_place, transparent=TRANSPARENT_CALLS, max_dep
                     go_op(rv.ops[0], path, depth + 1, bb)
                 elif rv.kind == 'agg':
                     out.append(Origin('agg', rv, path, bb, local))
+                elif through_ops and rv.kind in ('un', 'bin'):
+                    for o in rv.ops:
+                        go_op(o, path, depth + 1, bb)
                 else:
                     out.append(Origin('op', rv, path, bb, local))
             elif kind == 'call':
